@@ -221,7 +221,36 @@ def rule_perturbations(ctx: Ctx):
                     any(norm(v) == f"{f.self_name}._reference_continuum.category_weights" for v in assigned_value(f.node, W))
         ctx.check(okd, "R-C19-2", f, nd[0] if nd else None, "the new category is one of the reference's categories, drawn from the row of the unit's current category", key="cat-draw")
         # identity at magnitude 0 for every formula of the transition matrix
-        forms = [s for s in walk_no_nested(f.node) if isinstance(s, ast.Assign) and PM and norm(s.targets[0]) == PM and isinstance(s.value, ast.BinOp)]
+        # a formula is what one block makes of the matrix: `P = E(P)`, or a run of updates `P *= a ; P += b` (value-wise `P = P * a + b`), composed
+        # in statement order into one expression over the matrix the block started from
+        forms, consumed = [], []
+        if PM:
+            import copy as _copy
+            for node_ in [f.node] + list(walk_no_nested(f.node)):
+                for fld_ in ("body", "orelse", "finalbody"):
+                    blk_ = getattr(node_, fld_, None)
+                    if not isinstance(blk_, list) or not blk_ or not isinstance(blk_[0], ast.stmt):
+                        continue
+                    cur_, first_ = None, None
+                    for st_ in blk_:
+                        if isinstance(st_, ast.Assign) and norm(st_.targets[0]) == PM and isinstance(st_.value, ast.BinOp):
+                            val_ = _copy.deepcopy(st_.value)
+                            if cur_ is not None:
+                                class _Sub(ast.NodeTransformer):
+                                    def visit_Name(self, n, _c=cur_):
+                                        return _copy.deepcopy(_c) if n.id == PM and isinstance(n.ctx, ast.Load) else n
+                                val_ = _Sub().visit(val_)
+                            cur_, first_ = val_, first_ or st_
+                            consumed.append(st_)
+                        elif isinstance(st_, ast.AugAssign) and norm(st_.target) == PM:
+                            cur_ = ast.BinOp(left=cur_ if cur_ is not None else ast.Name(id=PM, ctx=ast.Load()), op=st_.op, right=_copy.deepcopy(st_.value))
+                            first_ = first_ or st_
+                            consumed.append(st_)
+                    if cur_ is not None:
+                        a_ = ast.copy_location(ast.Assign(targets=[ast.Name(id=PM, ctx=ast.Store())], value=cur_), first_)
+                        a_.end_lineno, a_.end_col_offset = getattr(first_, "end_lineno", None), getattr(first_, "end_col_offset", None)
+                        ast.fix_missing_locations(a_)
+                        forms.append(a_)
         host = f
         if not forms and PM:
             # the matrix comes from a method of the tool (not inlined: it carries a decorator, or is a public method): its returns are the formulas
@@ -254,7 +283,7 @@ def rule_perturbations(ctx: Ctx):
                     okI = False
                     continue
                 # what the formula reduces to must be the identity matrix: its only definition besides the formulas themselves is np.eye(n)
-                bdefs = [d for d in walk_no_nested(f_.node) if isinstance(d, ast.Assign) and norm(d.targets[0]) == base and d not in forms]
+                bdefs = [d for d in walk_no_nested(f_.node) if isinstance(d, ast.Assign) and norm(d.targets[0]) == base and d not in forms and d not in consumed]
                 if not (len(bdefs) == 1 and norm(bdefs[0].value).startswith("np.eye(")):
                     okI = False
             except Unsupported:
